@@ -274,7 +274,7 @@ class parma(ParametricSpectrum):
             self.psd = newpsd
         else:
             self.psd = psd
-        if self.scale_by_freq is True:
+        if self.scale_by_freq:
             self.scale()
         return self
 
@@ -332,7 +332,7 @@ class pma(ParametricSpectrum):
             self.psd = newpsd
         else:
             self.psd = psd
-        if self.scale_by_freq is True:
+        if self.scale_by_freq:
             self.scale()
         self.modified = False
 
